@@ -525,16 +525,18 @@ func (c *Ctx) freshReadClosure(host *load.FuncInfo, lit *ast.FuncLit, set *ast.I
 	info := host.Pkg.TypesInfo
 	nRead, nCached := 0, 0
 	var fresh *ast.Ident
-	for _, s := range c.G.Sites {
-		if s.InLit != lit {
-			continue
-		}
+	for _, s := range c.sitesUnder(host, lit) {
 		switch s.Class {
 		case "read":
 			if s.Resource == "statefulsets.pingcap" && s.Verb == "Get" {
 				nRead++
-				if as, ok := stmtOf(lit.Body, s.Call).(*ast.AssignStmt); ok && len(as.Lhs) == 2 {
-					fresh, _ = as.Lhs[0].(*ast.Ident)
+				// the variable receiving the object read (through a wrapper: the wrapper's matching result)
+				k := 0
+				if s.Helper != nil {
+					k = c.resultIndexOf(s.Helper, s.Call, 0)
+				}
+				if as, ok := stmtOf(lit.Body, s.Top).(*ast.AssignStmt); ok && k >= 0 && k < len(as.Lhs) && len(as.Rhs) == 1 {
+					fresh, _ = as.Lhs[k].(*ast.Ident)
 				}
 			}
 		case "cached-read":
